@@ -190,6 +190,7 @@ class Ops:
         assert mul_mode in ("uf", "exact")
         self.mul_mode = mul_mode
         self.side = []  # side axioms (draw ranges etc.)
+        self._comm = set()
 
     # ---- boolean
     def not_(self, a):
@@ -308,7 +309,15 @@ class Ops:
         if a.get_id() > b.get_id():
             a, b = b, a
         s = _R if kind == "f" else _I
-        return uf("mul_" + kind, s, s, s)(a, b)
+        f = uf("mul_" + kind, s, s, s)
+        t = f(a, b)
+        if not a.eq(b):
+            # ground commutativity instance (argument order is syntactic; equal values may be ordered differently)
+            k = (a.get_id(), b.get_id())
+            if k not in self._comm:
+                self._comm.add(k)
+                self.side.append(t == f(b, a))
+        return t
 
     def div(self, a, b, kind):
         a, b = lower(a), lower(b)
